@@ -879,10 +879,11 @@ def run(job, props=("C03", "C04", "C05", "C06", "C07", "C15", "C17"), keep_dir=N
                 if job["opts"].get("ignore") or ctx.supplied:
                     ctx.fail("C04", "crash", f"building with supplied/ignored molecules raised {error}", **facts)
         if status == "abort":
-            dilute = job.get("dilute", False)
-            if dilute and tape.exhausted() and not job.get("build_file"):
-                ctx.fail("C17", "progress", f"no progress: {ctx.update_calls} placement steps "
-                                            f"({ctx.post_tape_updates} after faults stopped) without finishing")
+            # bounded progress after the faults stop is NOT part of C17's statement (polyply retries without limit,
+            # e.g. a ring declared cyclic with -sf > 1 can never satisfy bounds computed from the unscaled step):
+            # such runs are counted and listed, never judged
+            if tape.exhausted():
+                ctx.probe("no_progress_after_faults_stopped")
         if status == "ok":
             final_state.check_all(ctx, job, workdir, props)
     except HarnessError:
